@@ -1,26 +1,46 @@
 #!/usr/bin/env python3
 """Builds /verif/corpus/<Cxx>/<seed id>.json from the replay files the seed matrix left under /var/tmp/seed_replays:
-for every seeded change the (shrunk) generated case on which the check caught it.  The checks run the corpus cases
+for every seeded change a (shrunk) generated case on which the check caught it.  The checks run the corpus cases
 first on every run (harness/driver.py), so a seed stays caught when the random part of a generator changes.  A corpus
-case is an ordinary generated case: on the unchanged tree it must pass like any other."""
-import os, sys, json, glob
+case is an ordinary case: only candidates on which the direct oracle is satisfied by the unchanged /repo are kept
+(shrinking under a seeded change can leave the generator's domain), smallest first; run with /venv/bin/python."""
+import os, sys, json, glob, importlib
 V = os.path.dirname(os.path.dirname(os.path.abspath(__file__)))
-n = 0
+sys.path.insert(0, os.path.join(V, 'harness'))
+os.environ.setdefault('VERIF_REPO', '/repo')
+import common, driver
+n, skipped = 0, []
+mods = {}
 for d in sorted(glob.glob('/var/tmp/seed_replays/C*-*')):
     sid = os.path.basename(d)
     prop = sid.split('-')[0]
-    best = None
+    cands = []
     for f in sorted(glob.glob(os.path.join(d, '*.json'))):
         r = json.load(open(f))
         if r.get('kind') == 'failing-input' and 'case' in r and not r['case'].get('witness_of'):
-            if best is None or len(json.dumps(r['case'])) < len(json.dumps(best['case'])):
-                best = r
-    if best is None:
-        continue
-    if len(json.dumps(best['case'])) > 60000:
-        continue
+            cands.append(r)
+    cands.sort(key=lambda r: len(json.dumps(r['case'])))
+    if prop not in mods:
+        mods[prop] = importlib.import_module('p' + prop[1:])
+    mod = mods[prop]
+    chosen = None
+    for r in cands:
+        if len(json.dumps(r['case'])) > 60000:
+            continue
+        known = driver.open_findings(prop)
+        outs, fails, _ = driver.evaluate(mod, [r['case']], do_coq=False)
+        if fails and driver.classify(mod, r['case'], outs[0], fails[0][1], known) is None:
+            continue          # fails on the unchanged tree as well: outside the domain (or a finding of its own)
+        chosen = r
+        break
     out = os.path.join(V, 'corpus', prop)
     os.makedirs(out, exist_ok=True)
-    json.dump({'case': best['case'], 'from_seed': sid, 'failure_with_the_seed': best.get('failure')}, open(os.path.join(out, sid + '.json'), 'w'), indent=1)
+    target = os.path.join(out, sid + '.json')
+    if chosen is None:
+        skipped.append(sid)
+        if os.path.exists(target):
+            os.remove(target)
+        continue
+    json.dump({'case': chosen['case'], 'from_seed': sid, 'failure_with_the_seed': chosen.get('failure')}, open(target, 'w'), indent=1)
     n += 1
-print(n, 'corpus cases')
+print(n, 'corpus cases; no usable case for', skipped)
